@@ -140,3 +140,118 @@ def pattern_lint(res, prop, rule, fns, matcher, positive_src, describe, what):
             res.add(mk_finding(prop, rule, fn, node, f"{fn.qualname}: {describe(node)}", role=unparse(node, 40)))
     res.inst(rule, f"{len(fns)} functions scanned for {what} ({n} found; embedded positive example recognised)", True)
     return n
+
+
+COMBO_PRODUCERS = {"combinations", "powerset", "_powerset", "subfaces", "_subfaces", "combinations_with_replacement"}
+
+
+def raw_tuple_dedupe_sites(fn_node):
+    """Sites where tuples of IDs coming out of a combinations-family producer are used as identity (set element,
+    dict key) without being made canonical (frozenset / sorted). When the producer is fed a set, the order of the IDs
+    inside such a tuple is the hash order, so (a, b) and (b, a) both occur and are not recognised as the same face."""
+    local = {}
+    for st in ast.walk(fn_node):
+        if isinstance(st, ast.Assign) and len(st.targets) == 1 and isinstance(st.targets[0], ast.Name):
+            local.setdefault(st.targets[0].id, []).append(st.value)
+
+    def is_producer(e, depth=0):
+        if depth > 3:
+            return False
+        if isinstance(e, ast.Call):
+            nm = getattr(e.func, "attr", getattr(e.func, "id", None))
+            if nm in COMBO_PRODUCERS:
+                return True
+            if nm in ("list", "tuple", "iter", "chain", "from_iterable") and e.args:
+                return any(is_producer(a, depth + 1) for a in e.args)
+        if isinstance(e, ast.Name) and e.id in local:
+            return any(is_producer(v, depth + 1) for v in local[e.id])
+        return False
+
+    def raw(e, var):
+        """e is the loop variable itself or tuple(var) / list(var) - still order-carrying."""
+        if isinstance(e, ast.Name) and e.id == var:
+            return True
+        if isinstance(e, ast.Call) and getattr(e.func, "id", None) in ("tuple", "list") and len(e.args) == 1 and isinstance(e.args[0], ast.Name) and e.args[0].id == var:
+            return True
+        return False
+
+    for n in ast.walk(fn_node):
+        # {c for c in producer} / {tuple(c) for c in producer}
+        if isinstance(n, ast.SetComp) and len(n.generators) >= 1:
+            g = n.generators[-1]
+            if isinstance(g.target, ast.Name) and is_producer(g.iter) and raw(n.elt, g.target.id):
+                yield n
+        # set(producer) / dict.fromkeys(producer)
+        if isinstance(n, ast.Call) and n.args and is_producer(n.args[0]):
+            if getattr(n.func, "id", None) in ("set", "frozenset") or (isinstance(n.func, ast.Attribute) and n.func.attr == "fromkeys"):
+                yield n
+        # for c in producer: S.add(c) / S.add(tuple(c)) / D[c] = ...
+        if isinstance(n, ast.For) and isinstance(n.target, ast.Name) and is_producer(n.iter):
+            var = n.target.id
+            for c in ast.walk(n):
+                if isinstance(c, ast.Call) and isinstance(c.func, ast.Attribute) and c.func.attr == "add" and c.args and raw(c.args[0], var):
+                    yield c
+                if isinstance(c, ast.Subscript) and isinstance(c.ctx, ast.Store) and raw(c.slice, var):
+                    yield c
+
+
+REORDER_CALLS = {"unique", "sorted", "set", "frozenset", "reversed", "argsort", "flip", "shuffle", "permutation", "sort"}
+
+
+def misaligned_zips(fn_node):
+    """zip(A, B, ...) of local sequences that were filtered or reordered differently on the way. Straight-line
+    bookkeeping over the statements of the function: a comprehension without a condition keeps the alignment of what it
+    iterates, one with a condition adds that condition (together with the mask it reads) to the signature of its result,
+    an order-changing call adds that call. All arguments of a zip must carry the same signature.
+    Yields (zip call, {name: signature})."""
+    sig = {}
+
+    def names_in(e):
+        return [n.id for n in ast.walk(e) if isinstance(n, ast.Name) and isinstance(n.ctx, ast.Load)]
+
+    def sig_of_expr(e, target=None):
+        out = frozenset()
+        if isinstance(e, (ast.ListComp, ast.GeneratorExp, ast.SetComp)):
+            for g in e.generators:
+                for nm in names_in(g.iter):
+                    out |= sig.get(nm, frozenset())
+                for t in g.ifs:
+                    masks = sorted(set(names_in(g.iter)) - ({target} if target else set()) - {"zip", "enumerate", "range", "len"})
+                    out |= frozenset([f"if {unparse(t, 40)} [{','.join(m for m in masks if m != target)}]"])
+            return out
+        if isinstance(e, ast.Call):
+            nm = getattr(e.func, "attr", getattr(e.func, "id", None))
+            for a in list(e.args):
+                out |= sig_of_expr(a, target)
+            if nm in REORDER_CALLS and e.args:
+                out |= frozenset([f"reorder:{nm}"])
+            return out
+        if isinstance(e, ast.Subscript):
+            out |= sig_of_expr(e.value, target)
+            if isinstance(e.slice, ast.Slice) and e.slice.step is not None:
+                out |= frozenset(["reorder:slice-step"])
+            elif isinstance(e.slice, ast.Name):  # boolean mask / fancy index
+                out |= frozenset([f"index {e.slice.id}"])
+            return out
+        if isinstance(e, ast.Name):
+            return sig.get(e.id, frozenset())
+        return out
+
+    def visit(stmts):
+        for st in stmts:
+            for c in ast.walk(st) if not isinstance(st, (ast.For, ast.While, ast.If, ast.With, ast.Try, ast.FunctionDef)) else [st.iter] if isinstance(st, ast.For) else ([st.test] if isinstance(st, (ast.If, ast.While)) else []):
+                for z in ast.walk(c):
+                    if isinstance(z, ast.Call) and isinstance(z.func, ast.Name) and z.func.id == "zip" and len(z.args) >= 2 and all(isinstance(a, ast.Name) for a in z.args):
+                        sigs = {a.id: sig.get(a.id, frozenset()) for a in z.args}
+                        # a zip that is itself the filter being applied (zip(seq, mask)) is not a pairing of data
+                        yield z, sigs
+            if isinstance(st, ast.Assign) and len(st.targets) == 1 and isinstance(st.targets[0], ast.Name):
+                sig[st.targets[0].id] = sig_of_expr(st.value, st.targets[0].id)
+            elif isinstance(st, ast.Expr) and isinstance(st.value, ast.Call) and isinstance(st.value.func, ast.Attribute) and st.value.func.attr in ("sort", "reverse") and isinstance(st.value.func.value, ast.Name):
+                sig[st.value.func.value.id] = sig.get(st.value.func.value.id, frozenset()) | frozenset([f"reorder:{st.value.func.attr}"])
+            for field in ("body", "orelse", "finalbody"):
+                sub = getattr(st, field, None)
+                if isinstance(sub, list) and not isinstance(st, (ast.FunctionDef, ast.AsyncFunctionDef, ast.ClassDef)):
+                    yield from visit(sub)
+
+    yield from visit(fn_node.body)
